@@ -34,6 +34,7 @@ from typing import Any
 import yaml
 
 from src.core.base import BaseLintContext, BaseLintRule
+from src.core.linter_utils import matches_ignore_patterns
 from src.core.types import Violation
 
 from .config_loader import ConfigLoader
@@ -116,6 +117,10 @@ class FilePlacementLinter:
         # Config is already unwrapped from file-placement key in _load_layout_config
         fp_config = self.config
         return self._components.rule_checker.check_all_rules(path_str, rel_path, fp_config)
+
+    def path_resolver_relative(self, file_path: Path) -> Path:
+        """Project-relative spelling of a path (used for the section's ignore patterns)."""
+        return self._components.path_resolver.get_relative_path(file_path)
 
     def check_file_allowed(self, file_path: Path) -> bool:
         """Check if file is allowed (no violations).
@@ -222,6 +227,10 @@ class FilePlacementRule(BaseLintRule):  # thailint: ignore[srp.violation]
         project_root = self._get_project_root(context)
         linter = self._get_or_create_linter(project_root, context)
         if linter.config.get("enabled", True) is False:
+            return []
+        if matches_ignore_patterns(
+            linter.path_resolver_relative(context.file_path), linter.config.get("ignore")
+        ):
             return []
         return linter.lint_path(context.file_path)
 
